@@ -23,7 +23,8 @@ import tracecheck
 import traceprep
 from common import Inconclusive, build_harness, log
 
-PREFIXES = ["healthy-timeout", "initerror", "crash", "timeout", "extcrash", "extiniterror", "one-ext-then-more", "ext-shutdown-error", "stubborn-ext"]
+PREFIXES = ["healthy-timeout", "initerror", "crash", "timeout", "extcrash", "extiniterror", "one-ext-then-more", "ext-shutdown-error", "stubborn-ext",
+            "init-timeout", "initerror-held-timeout"]
 SUFFIXES = ["healthy", "crash", "early-internal", "timeout", "init-crash", "ext-early-exit"]
 
 
@@ -34,6 +35,14 @@ def prefix(s, rnd, kind):
         s.call("rt", "initerror", body='{"errorMessage":"boom","errorType":"Runtime.Boom"}', errType="Runtime.Boom")
         s.exit("rt", code=1)
         s.until_ev("Tel", key="kind", val="InitReport")
+        it = s.invoke(size=4, seed=1)
+        s.wait(it)
+    elif kind in ("init-timeout", "initerror-held-timeout"):
+        # the invocation overlaps an initialisation that never completes and times out: what the interrupted
+        # initialisation left behind (its failure, an error the runtime had reported) goes with that environment
+        s.await_exec(kind="rt")
+        if kind == "initerror-held-timeout":
+            s.call("rt", "initerror", body='{"errorMessage":"boom","errorType":"Runtime.Boom"}', errType="Runtime.Boom")
         it = s.invoke(size=4, seed=1)
         s.wait(it)
     elif kind in ("crash", "timeout", "healthy-timeout"):
